@@ -157,12 +157,26 @@ def _daemon_worker(a):
                 # for letter, the text the NEXT client will be announced with (a listener's own address connecting to another listener)
                 ip_ = nxt_ip if nxt_ip is not None else pattern_addr(rng)
                 nxt_ip = pattern_addr(rng) if seed % 2 else None
+                if seed % 3 == 0 and rep == 0 and k % 4 == 1:
+                    # two clients in a row whose address texts are long spellings (40 characters and more) that differ only at
+                    # the very end: each is the address it says
+                    hi_ = "%x:%04x:0000:0000:0000:0000:192.168.%d." % (0x2001 + k, 0xdb8, 100 + k % 100)
+                    twin = 8000 + k
+                    s.do({"t": "announce", "id": twin, "ip": hi_ + "200", "port": 7})
+                    ip_ = hi_ + "201"
+                    twin_pending = twin
+                else:
+                    twin_pending = None
                 ev_ = {"t": "announce", "id": cid, "ip": ip_, "port": rng.choice([1, 1024, 65535])}
                 if nxt_ip is not None and rng.random() < 0.5:
                     ev_["lip"] = nxt_ip
                 elif nxt_ip is not None and rng.random() < 0.3:
                     ev_["lip"] = pattern_addr(rng)
                 s.do(ev_)
+                if twin_pending is not None:
+                    s.do({"t": "hurry", "id": twin_pending})
+                    if twin_pending in s.open:
+                        s.do({"t": "disconnect", "id": twin_pending})
                 evs = [{"t": "host", "id": cid, "name": "h%d.example.org" % k}, {"t": "ident", "id": cid, "name": "~u"}, {"t": "nick", "id": cid, "name": "n%d" % k},
                        {"t": "userinfo", "id": cid, "user": "u", "real": "r"}]
                 rng.shuffle(evs)
